@@ -219,9 +219,10 @@ impl<'a> Parser<'a> {
                     let token = self.get()?;
                     match self.text(&token) {
                         "c" | "C" => {
-                            self.expected_inputs
-                                .entry(&self.signals[signal_index])
-                                .or_insert(token.span);
+                            // A `C` past the last column is reported by the width check below
+                            if let Some(signal) = self.signals.get(signal_index) {
+                                self.expected_inputs.entry(signal).or_insert(token.span);
+                            }
                             data.push(DataEntry::C);
                         }
                         "x" | "X" => data.push(DataEntry::X),
